@@ -79,16 +79,17 @@ End Fees.
 Definition added_utxos (offered : list utxo) (trace : list nat) : list utxo :=
   flat_map (fun i => match nth_error offered i with Some u => [u] | None => [] end) trace.
 
-(* soundness of a successful selection *)
+(* soundness of a successful selection: the three clauses of the property.  The asset half of the third clause
+   is stated outside the known class [asset_class_excluded] (C08-burn-not-covered, below) *)
 Definition sound_result (min_fee : imap -> result N) (fee_for_input : imap -> utxo -> result N)
-           (offered : list utxo) (sc : scenario) (st' : sel_state) : Prop :=
+           (asset_class_excluded : bool) (offered : list utxo) (sc : scenario) (st' : sel_state) : Prop :=
   let before := imap_of_list (sc_pre sc) in
   let added := added_utxos offered (st_trace st') in
   distinct_members offered added /\
   preserved before (st_inputs st') added /\
   exists fee, required_fee min_fee fee_for_input before added = Ok fee /\
               covers_coin sc (st_inputs st') fee /\
-              covers_assets sc (st_inputs st').
+              (asset_class_excluded = false -> covers_assets sc (st_inputs st')).
 
 (* ------------------------------------------------------------------------------------------- *)
 (* Known-finding classes (decidable, narrow) *)
